@@ -85,6 +85,21 @@ claimed.update({
    note="gob stream in memory; same calculators in source and target.",
    technique=SEQ, ref="5/C19"),
 })
+E2T = "stateless model checking of the implementation: controlled scheduler + preemption-bounded DFS"
+claimed.update({
+ "C02": dict(
+   text="All interleavings (pb 2 quick / 3 thorough) of pairs and triples of Set, SetIfAbsent, GetIfPresent, Compute{write,invalidate,cancel}, ComputeIfAbsent, ComputeIfPresent, Invalidate and loader-backed Get on keys forced into one bucket with equal meta byte, while the table grows and shrinks (small-scope table) and while the cache evicts (capacity 1-2, same-goroutine and default executors): each complete history, with automatic removals inserted where OnAtomicDeletion reported them, is decided by a Wing-Gong linearizability search against the sequential map; compute callbacks exactly once.",
+   note="A removal takes effect between the handler's invocation and the end of the removing computation (lock-free readers may see the node until it is unlinked). Loader-backed Get uses a two-point nondeterministic spec (miss, then install-or-discard); expiry under concurrency is covered sequentially by C01/C03.",
+   technique=E2T+" + linearizability search", ref="5/C02"),
+ "C08": dict(
+   text="All interleavings at loader-callback granularity (unbounded) and at sync/atomic granularity (pb 2/3) of Get||Get, Get||Get||Get, Get||BulkGet, BulkGet||BulkGet, Get||Refresh, Refresh||BulkRefresh, stale Get||stale Get for every loader outcome (value, error, value+error, ErrNotFound, panic, partial/extra/empty bulk maps): loader invocations for one key never overlap, a call that did not run the loader gets a cached value or an overlapping flight's outcome, panics surface in the caller that ran the loader, every thread terminates (deadlock/livelock are violations), no in-flight record is left and a later Get loads afresh.",
+   note="A Get whose cache lookup missed before a flight installed its value and whose flight lookup came after that flight ended loads again; the invocations do not overlap, which is what the property demands (see DESIGN).",
+   technique=E2T, ref="5/C08"),
+ "C09": dict(
+   text="All interleavings (pb 2/3) of {miss-load, stale reload, Refresh, BulkGet} with {Set, SetIfAbsent, Compute write/invalidate, Invalidate, ComputeIfAbsent, ComputeIfPresent, InvalidateAll} on the same key, same-goroutine and default executors: whenever an unconditional write or invalidation began after the loader was entered, the final GetEntryQuietly shows that write (or nothing), never the loaded value; callers that ran a load still receive its value; structural audit at quiescence.",
+   note="Judged by the unambiguous-window rule; conditional writers are covered by the linearizability scenarios of C02.",
+   technique=E2T, ref="5/C09"),
+})
 props = [json.loads(l) for l in open("/verif/properties.jsonl")]
 checks, na = [], []
 for p in props:
